@@ -33,6 +33,11 @@ Inductive msg :=
 | MGarbage                       (* bytes whose unpickling raises in the parent *)
 | MPartial.                      (* a message whose writer died before writing all of it *)
 Inductive mgr_pc := NotStarted | AtFeed | AtWait | Exited | Stuck | Crashed.
+(* WDead abstracts from HOW the process ended: killed by any signal, os._exit(k) for any k -- exit status 0
+   included --, sys.exit(1) after a failed call-item load.  The code must (and does) treat every exit of a
+   process that is still in _processes as a death: the sentinel becomes ready whatever the status, and
+   wait_result_broken_or_wakeup never looks at p.exitcode to decide (only to word the message).  Tied by the
+   exit-status dimension of the fault-injection scenarios (exit:0, exit:1, exit:3, exit:255 at every instant). *)
 Inductive wstate := WNone | WIdle | WBusy (id : nat) | WExiting | WDead.
 
 Definition finished (f : fut) : bool :=
